@@ -322,7 +322,7 @@ def _fresh_log(prefix: str) -> str:
             return p
 
 
-def cli_real(argv, cwd, env=None, timeout=180.0, python_opts=None) -> Result:
+def cli_real(argv, cwd, env=None, timeout=180.0, python_opts=None, stdin_data=None) -> Result:
     """B-CLI/real: the installed console script in a fresh interpreter."""
     argv = [str(a) for a in argv]
     e = base_env()
@@ -341,7 +341,10 @@ def cli_real(argv, cwd, env=None, timeout=180.0, python_opts=None) -> Result:
     t0 = time.monotonic()
     res = Result()
     try:
-        p = subprocess.run(cmd, cwd=cwd, env=e, capture_output=True, timeout=timeout, stdin=subprocess.DEVNULL, check=False)
+        if stdin_data is None:
+            p = subprocess.run(cmd, cwd=cwd, env=e, capture_output=True, timeout=timeout, stdin=subprocess.DEVNULL, check=False)
+        else:  # answers to interactive prompts
+            p = subprocess.run(cmd, cwd=cwd, env=e, capture_output=True, timeout=timeout, input=stdin_data, check=False)
         res["timeout"] = False
         rc = p.returncode
         out, err = p.stdout, p.stderr
